@@ -245,6 +245,15 @@ def threshold_pairs(chk):
                 res = clustering.flat_upgma(t, shared)
                 got['flat_upgma'].append((t, sorted(sorted(v) for v in res.values())))
                 calls.append(('flat_upgma', t))
+                # ... and the grouping wrapper behind Wordlist.calculate('groups'), with every linkage name it may be given (a name
+                # it does not know is its own business; the distances it was handed stay the caller's)
+                tx_ = ['X%d' % i_ for i_ in range(len(m))]
+                cm_ = rng.choice(['upgma', 'single', 'complete', 'ward'])
+                try:
+                    clustering.matrix2groups(t, shared, tx_, cluster_method=cm_)
+                    calls.append(('matrix2groups:' + cm_, t))
+                except Exception:  # noqa
+                    calls.append(('matrix2groups:' + cm_ + ' (raised)', t))
         except Exception as ex:  # noqa
             sweeps.append((order[0], m, ts[0], ts[-1], 'raised %s' % type(ex).__name__, calls))
             continue
